@@ -3,6 +3,7 @@ package main
 // Loading /repo's current working tree (plus the harness overlay) into go/ssa.
 
 import (
+	"encoding/json"
 	"fmt"
 	"go/ast"
 	"go/token"
@@ -36,6 +37,7 @@ type Env struct {
 	trace              bool
 	typesByName        map[string]types.Type
 	repoDir            string
+	bounds             map[string]int
 }
 
 var stubRe = regexp.MustCompile(`^//verif:stub\s+(\S.*\S)\s+->\s+(\S+)\s*$`)
@@ -167,7 +169,12 @@ func loadProgram(repoDir, pkgPattern string, harnessFiles []string, ndTemplate s
 	prog, _ := ssautil.AllPackages([]*packages.Package{target}, ssa.InstantiateGenerics)
 	prog.Build()
 	env := &Env{prog: prog, skipInit: skipInit, stubs: map[string]*ssa.Function{}, stubNames: stubNames,
-		declaredSites: declared, repoDir: repoDir, typesByName: map[string]types.Type{}}
+		declaredSites: declared, repoDir: repoDir, typesByName: map[string]types.Type{}, bounds: map[string]int{}}
+	if b := os.Getenv("VERIF_BOUNDS"); b != "" {
+		if err := json.Unmarshal([]byte(b), &env.bounds); err != nil {
+			return nil, fmt.Errorf("VERIF_BOUNDS: %v", err)
+		}
+	}
 	env.pkg = prog.Package(target.Types)
 	if env.pkg == nil {
 		return nil, fmt.Errorf("no ssa package for %s", target.ID)
